@@ -51,7 +51,7 @@ func checkC18() int {
 		fmt.Fprintln(os.Stderr, "grits binary missing:", err)
 		return 2
 	}
-	c.Rule = "the built grits binary (go build of /repo, no tag) is run on files: corpus, G1 programs, ill-typed single-edit mutants, unparseable edits; flags: 0..3 occurrences each of --typecheck[=v] / --notypecheck[=v] and --execute[=v] / --noexecute[=v] in any order (a stage runs iff its positive flag is true and its negative flag false, each at its last value) x {default, --sync, --async} x --verbosity 1..3; expected verdicts come from the worker's parse/typecheck of the same text (and R1 where there is an AST; cases where they disagree are skipped); oracle: exit status 0 iff parse ok and (typecheck skipped or ok); no '> label' line when status != 0 or execution is off; exactly one diagnostic line on failure; never a Go panic trace; non-trivial = distinct (file, flag set) with a known expected status"
+	c.Rule = "the built grits binary (go build of /repo, no tag) is run on files: corpus, G1 programs, ill-typed single-edit mutants, unparseable edits, texts that end in the middle of a declaration (with and without a final newline), empty / blank / comment-only files, files with a line of more than 64 KiB followed by an error; flags: 0..3 occurrences each of --typecheck[=v] / --notypecheck[=v] and --execute[=v] / --noexecute[=v] in any order (a stage runs iff its positive flag is true and its negative flag false, each at its last value) x {default, --sync, --async} x --verbosity 1..3; expected verdicts come from the worker's parse/typecheck of the same text (and R1 where there is an AST; cases where they disagree are skipped); oracle: exit status 0 iff parse ok and (typecheck skipped or ok); no '> label' line when status != 0 or execution is off; exactly one diagnostic line on failure; never a Go panic trace; non-trivial = distinct (file, flag set) with a known expected status"
 	c.Assumptions = []string{"each executing invocation costs the real 50 ms heartbeat; a 30 s timeout is inconclusive"}
 	var cases []*cliCase
 	add := func(src, text string) { cases = append(cases, &cliCase{id: fmt.Sprintf("f%d", len(cases)), text: text, source: src}) }
@@ -93,6 +93,31 @@ func checkC18() int {
 			}
 			forced[len(cases)] = true
 			add("illegal-rune", t[:pos]+ill+"\n"+t[pos:])
+		}
+	}
+	// files that end where a parser only notices at the very end of the input, with and without
+	// a final newline; empty and comment-only files; files with a line of more than 64 KiB
+	// (a comment) followed by a syntax error, a type error, or nothing
+	if len(gcs) > 0 {
+		base := gcs[0].Text
+		for _, tail := range []string{"prc[zz] : 1 =", "prc[zz] : 1 = wait", "type Zz =", "let zf() : 1 =", "prc[zz]", "/* never closed", "prc[zz] : 1 = close self /* tail"} {
+			for _, nl := range []string{"", "\n", "\n\n"} {
+				add("unfinished-at-eof", base+"\n"+tail+nl)
+				add("unfinished-at-eof", tail+nl)
+			}
+		}
+		for _, t := range []string{"", "\n", "\n\n\n", "// only a comment\n", "/* only a comment */\n", "   \n\t\n"} {
+			add("blank", t)
+		}
+		long := "// " + strings.Repeat("x", 70000+r.Intn(30000)) + "\n"
+		for k, pc := range gcs {
+			if k >= 4 {
+				break
+			}
+			add("long-line", pc.Text+long)
+			add("long-line-then-syntax-error", pc.Text+long+"prc[zz] : 1 = = close self\n")
+			add("long-line-then-type-error", pc.Text+long+"prc[zz] : lin 1 = wait zz; close self\n")
+			add("long-line-first", long+pc.Text)
 		}
 	}
 	// expected verdicts
